@@ -388,7 +388,9 @@ def run(ctx):
             inv = any(c.is_("core::ops::function::Fn::call") or c.is_(ERRNEW) for c in calls)
             diff = any(c.path.endswith("::difference") for c in calls)
             if v == "Literal":
-                return (inv and any(c.path.endswith("Iterator::find") or c.path.endswith("memchr") or "find" in c.path for c in calls),
+                return (inv and any(c.path.endswith("Iterator::find") or c.path.endswith("memchr") or "find" in c.path or
+                                    c.path.endswith("::contains") or c.path.endswith("Iterator::any") or c.path.endswith("Iterator::position")
+                                    for c in calls),
                         "searches the literal for the byte and rejects it" if inv else "never rejects a literal containing the terminator")
             return (diff and inv, "removes the byte with a class difference and rejects an emptied class" if diff and inv
                     else "does not remove the terminator from classes (difference %s, reject %s)" % (diff, inv))
